@@ -84,6 +84,7 @@ type State struct {
 	declared  map[string]bool
 	keepPkgs  []string // packages whose untouched components still have their entry value after whole-heap havocs
 	keepNone  bool
+	dbg       map[string]ssa.Value // the value a source variable was last seen with on this path (DebugRef)
 }
 
 func (s *State) clone() *State {
@@ -135,6 +136,12 @@ func (s *State) clone() *State {
 	}
 	n.keepPkgs = s.keepPkgs
 	n.keepNone = s.keepNone
+	if s.dbg != nil {
+		n.dbg = make(map[string]ssa.Value, len(s.dbg))
+		for k, v := range s.dbg {
+			n.dbg[k] = v
+		}
+	}
 	if s.loopSnap != nil {
 		n.loopSnap = make(map[int]*State, len(s.loopSnap))
 		for k, v := range s.loopSnap {
@@ -345,6 +352,10 @@ func (u *Unit) compSorts() map[string]string {
 
 func (u *Unit) heapSet(st *State, comp string, v Term) {
 	u.compSorts()[comp] = v.Sort
+	if len(v.S) > 600 {
+		// name large store chains: nested updates re-read the component and would grow exponentially
+		v = u.define(st, comp, v)
+	}
 	st.heap[comp] = v
 }
 
